@@ -304,7 +304,21 @@ def prove(assumptions, goal, tr=None, timeout_ms=None):
                    want_model=False, use_cvc5=False)
     if r0.status == 'unsat':
       return Result('proved', None, time.time() - t0, 'z3-linear-relaxation')
-  r = check_sat(list(assumptions) + [~goal], tr, timeout_ms)
+  r = check_sat(list(assumptions) + [~goal], tr, timeout_ms, use_cvc5=False)
+  if r.status == 'unknown':
+    # slow queries are unstable ones: a second attempt with fresh term numbering and another
+    # seed often closes at once; cvc5 gets the query after that
+    t1 = time.time()
+    z3.set_param('smt.random_seed', 7)
+    z3.set_param('sat.random_seed', 7)
+    try:
+      r2 = check_sat(list(assumptions) + [~goal], Translator(), timeout_ms, use_cvc5=True)
+    finally:
+      z3.set_param('smt.random_seed', 0)
+      z3.set_param('sat.random_seed', 0)
+    r2.time = r.time + (time.time() - t1)
+    r2.detail = 'retry after z3 unknown; ' + r2.detail
+    r = r2
   if r.status == 'unsat':
     return Result('proved', None, r.time, r.backend, r.detail)
   if r.status == 'sat':
